@@ -596,357 +596,4 @@ theorem resolveAll_spec {nc : Bool} {m m' : SMap} (hs : Sound nc m) (hr : Roots 
           | some rr => exact ⟨e2, rr, hl2, hr2'⟩
         · exact absurd ⟨r, hres⟩ hnot
 
-/-! ### nothing but `res` ever changes in an entry -/
-
-/-- `m'` has the same ids with the same registered descriptions (string and parsed form) as `m` -/
-def Frame (m m' : SMap) : Prop :=
-  ∀ id, (lookup m' id).map (fun e => (e.initStr, e.desc)) = (lookup m id).map (fun e => (e.initStr, e.desc))
-
-theorem Frame.refl (m : SMap) : Frame m m := fun _ => rfl
-theorem Frame.trans {a b c : SMap} (h1 : Frame a b) (h2 : Frame b c) : Frame a c :=
-  fun id => (h2 id).trans (h1 id)
-
-theorem frame_setRes (m : SMap) (x : Id) (r : Res) : Frame m (setRes m x r) := by
-  intro id
-  induction m with
-  | nil => simp [setRes]
-  | cons ke m ih =>
-    obtain ⟨k, e⟩ := ke
-    by_cases hk : k = x
-    · by_cases hk' : k = id
-      · simp [setRes, lookup, hk]
-        subst hk; subst hk'; simp
-      · subst hk
-        simp [setRes, lookup, hk']
-    · by_cases hk' : k = id
-      · subst hk'
-        simp [setRes, lookup, hk]
-      · simp [setRes, lookup, hk, hk', ih]
-
-theorem resolvePath_frame {nc : Bool} : ∀ (rpath : List Id) (m : SMap) (par : Resolved) (m' : SMap),
-    resolvePath nc m par rpath = .ok m' → Frame m m' := by
-  intro rpath
-  induction rpath with
-  | nil => intro m par m' h; simp [resolvePath] at h; subst h; exact Frame.refl _
-  | cons x rest ih =>
-    intro m par m' h
-    unfold resolvePath at h
-    cases hl : lookup m x with
-    | none => simp [hl] at h
-    | some e =>
-      simp only [hl] at h
-      split at h
-      · cases h
-      · cases h1 : resolve1 nc e.desc (some par) with
-        | error err => simp [h1] at h
-        | ok r =>
-          simp [h1] at h
-          exact (frame_setRes m x r).trans (ih _ _ _ h)
-
-theorem passStep_frame {nc : Bool} {fuel : Nat} {s s' : PassSt} {id : Id}
-    (h : passStep nc fuel s id = .ok s') : Frame s.m s'.m := by
-  unfold passStep at h
-  cases hl : lookup s.m id with
-  | none => simp [hl] at h
-  | some e =>
-    simp only [hl] at h
-    split at h
-    · cases h; exact Frame.refl _
-    · cases hw : walk s.m s.cant fuel id [] with
-      | error err => simp [hw] at h
-      | ok w =>
-        cases w with
-        | stuck p => simp [hw] at h; subst h; exact Frame.refl _
-        | found par p =>
-          simp only [hw] at h
-          cases hrp : resolvePath nc s.m par p with
-          | error err => simp [hrp] at h
-          | ok m' => simp [hrp] at h; subst h; exact resolvePath_frame _ _ _ _ hrp
-
-theorem pass_frame {nc : Bool} {fuel : Nat} : ∀ (ids : List Id) (s s' : PassSt),
-    pass nc fuel s ids = .ok s' → Frame s.m s'.m := by
-  intro ids
-  induction ids with
-  | nil => intro s s' h; simp [pass] at h; subst h; exact Frame.refl _
-  | cons id ids ih =>
-    intro s s' h
-    unfold pass at h
-    cases h1 : passStep nc fuel s id with
-    | error err => simp [h1] at h
-    | ok s1 => simp [h1] at h; exact (passStep_frame h1).trans (ih _ _ h)
-
-theorem loop_frame {nc : Bool} {wfuel : Nat} {ids : List Id} : ∀ (fuel : Nat) (m : SMap) (cant : List Id) (m' : SMap),
-    loop nc wfuel ids fuel m cant = .ok m' → Frame m m' := by
-  intro fuel
-  induction fuel with
-  | zero => intro m cant m' h; simp [loop] at h
-  | succ fuel ih =>
-    intro m cant m' h
-    unfold loop at h
-    cases hp : pass nc wfuel ⟨m, cant, false⟩ ids with
-    | error err => simp [hp] at h
-    | ok s =>
-      simp only [hp] at h
-      have hf := pass_frame ids _ s hp
-      split at h
-      · exact Frame.trans hf (ih _ _ _ h)
-      · cases h; exact hf
-
-theorem resolveAll_frame {nc : Bool} {m m' : SMap} (h : resolveAll nc m = .ok m') : Frame m m' := by
-  unfold resolveAll at h
-  simp only at h
-  split at h
-  · cases h; exact Frame.refl _
-  · exact loop_frame _ _ _ _ h
-
-theorem Frame.strOf {m m' : SMap} (h : Frame m m') : strOf m' = strOf m := by
-  funext id
-  have := h id
-  unfold ColorsConf.strOf
-  cases h1 : lookup m' id <;> cases h2 : lookup m id <;> simp [h1, h2] at this ⊢
-  exact this.1
-
-theorem Frame.descOf {m m' : SMap} (h : Frame m m') : descOf m' = descOf m := by
-  funext id
-  have := h id
-  unfold ColorsConf.descOf
-  cases h1 : lookup m' id <;> cases h2 : lookup m id <;> simp [h1, h2] at this ⊢
-  exact this.2
-
-/-- every entry holds the parsed form of its own description string -/
-def Parsed (m : SMap) : Prop :=
-  ∀ id e, lookup m id = some e → parseInitStr e.initStr = .ok e.desc
-
-theorem Frame.parsed {m m' : SMap} (h : Frame m m') (hp : Parsed m) : Parsed m' := by
-  intro id e' hl'
-  have := h id
-  cases h2 : lookup m id with
-  | none => simp [hl', h2] at this
-  | some e =>
-    simp [hl', h2] at this
-    rw [this.1, this.2]
-    exact hp id e h2
-
-theorem Parsed.descOf {m : SMap} (hp : Parsed m) (id : Id) : descOf m id = (strOf m id).bind parsed := by
-  unfold ColorsConf.descOf ColorsConf.strOf
-  cases hl : lookup m id with
-  | none => simp
-  | some e => simp [parsed, hp id e hl]
-
-/-! ### insertion -/
-
-theorem descOf_append_sub {m : SMap} {k : Id} {e : Entry} :
-    ∀ id d, descOf m id = some d → descOf (m ++ [(k, e)]) id = some d := by
-  intro id d h
-  unfold descOf at h ⊢
-  rw [lookup_append_new]
-  cases hl : lookup m id with
-  | none => simp [hl] at h
-  | some x => simpa [hl] using h
-
-theorem append_new_inv {nc : Bool} {m : SMap} {k : Id} {e : Entry}
-    (hs : Sound nc m) (hr : Roots m) (hp : Parsed m) (hk : lookup m k = none)
-    (hparse : parseInitStr e.initStr = .ok e.desc)
-    (hres : (e.res = none ∧ e.desc.parent ≠ none) ∨
-      (∃ r, e.res = some r ∧ e.desc.parent = none ∧ r.eff = effOf none e.desc ∧ mkFmt nc r.eff = .ok r.fmt)) :
-    Sound nc (m ++ [(k, e)]) ∧ Roots (m ++ [(k, e)]) ∧ Parsed (m ++ [(k, e)]) := by
-  have hcase : ∀ id e', lookup (m ++ [(k, e)]) id = some e' →
-      lookup m id = some e' ∨ (lookup m id = none ∧ k = id ∧ e' = e) := by
-    intro id e' h
-    rw [lookup_append_new] at h
-    cases hl : lookup m id with
-    | some x => simp [hl] at h; exact .inl (by rw [h])
-    | none =>
-      simp [hl] at h
-      exact .inr ⟨rfl, h.1, h.2.symm⟩
-  refine ⟨?_, ?_, ?_⟩
-  · intro id e' r hl hr'
-    rcases hcase id e' hl with h | ⟨_, hid, he⟩
-    · obtain ⟨h1, h2⟩ := hs id e' r h hr'
-      exact ⟨h1.mono descOf_append_sub, h2⟩
-    · subst he; subst hid
-      rcases hres with ⟨hn, _⟩ | ⟨r', hr'', hpn, heff, hfmt⟩
-      · rw [hn] at hr'; cases hr'
-      · rw [hr''] at hr'; cases hr'
-        refine ⟨?_, hfmt⟩
-        rw [heff]
-        refine .root ?_ hpn
-        simp [descOf, lookup_append_new, hk]
-  · intro id e' hl hpn
-    rcases hcase id e' hl with h | ⟨_, _, he⟩
-    · exact hr id e' h hpn
-    · subst he
-      rcases hres with ⟨_, hne⟩ | ⟨r', hr'', _⟩
-      · exact absurd hpn hne
-      · simp [hr'']
-  · intro id e' hl
-    rcases hcase id e' hl with h | ⟨_, _, he⟩
-    · exact hp id e' h
-    · subst he; exact hparse
-
-theorem insertItems_spec {nc : Bool} : ∀ (items : List (Id × Str)) (m m' : SMap),
-    Sound nc m → Roots m → Parsed m → insertItems nc m items = .ok m' →
-    Sound nc m' ∧ Roots m' ∧ Parsed m' ∧ strOf m' = firstStr (strOf m) items := by
-  intro items
-  induction items with
-  | nil =>
-    intro m m' hs hr hp h
-    simp [insertItems] at h
-    subst h
-    refine ⟨hs, hr, hp, ?_⟩
-    funext id
-    simp only [firstStr]
-    cases strOf m id <;> simp [dictGet]
-  | cons kv rest ih =>
-    intro m m' hs hr hp h
-    obtain ⟨k, s⟩ := kv
-    unfold insertItems at h
-    cases hl : lookup m k with
-    | some e0 =>
-      simp [hl] at h
-      obtain ⟨hs', hr', hp', hstr⟩ := ih m m' hs hr hp h
-      refine ⟨hs', hr', hp', ?_⟩
-      rw [hstr]
-      funext id
-      simp only [firstStr]
-      cases hsm : strOf m id with
-      | some x => rfl
-      | none =>
-        have : k ≠ id := by
-          intro hk; subst hk
-          simp [strOf, hl] at hsm
-        simp [dictGet, this]
-    | none =>
-      simp only [hl] at h
-      cases hparse : parseInitStr s with
-      | error err => simp [hparse] at h
-      | ok d =>
-        have key : ∀ (e : Entry), e.initStr = s → e.desc = d →
-            ((e.res = none ∧ e.desc.parent ≠ none) ∨
-              (∃ r, e.res = some r ∧ e.desc.parent = none ∧ r.eff = effOf none e.desc ∧ mkFmt nc r.eff = .ok r.fmt)) →
-            insertItems nc (m ++ [(k, e)]) rest = .ok m' →
-            Sound nc m' ∧ Roots m' ∧ Parsed m' ∧ strOf m' = firstStr (strOf m) ((k, s) :: rest) := by
-          intro e hes hed hres h'
-          have hpe : parseInitStr e.initStr = .ok e.desc := by rw [hes, hed]; exact hparse
-          obtain ⟨hs1, hr1, hp1⟩ := append_new_inv hs hr hp hl hpe hres
-          obtain ⟨hs', hr', hp', hstr⟩ := ih _ m' hs1 hr1 hp1 h'
-          refine ⟨hs', hr', hp', ?_⟩
-          rw [hstr]
-          funext id
-          simp only [firstStr, strOf, lookup_append_new]
-          cases hlm : lookup m id with
-          | some x => simp
-          | none =>
-            by_cases hk : k = id
-            · simp [hk, dictGet, hes]
-            · simp [hk, dictGet]
-        simp only [hparse] at h
-        cases hpar : d.parent with
-        | some p =>
-          simp only [hpar] at h
-          exact key ⟨s, d, none⟩ rfl rfl (.inl ⟨rfl, by simp [hpar]⟩) h
-        | none =>
-          simp only [hpar] at h
-          cases h1 : resolve1 nc d none with
-          | error err => simp [h1] at h
-          | ok r =>
-            simp only [h1] at h
-            obtain ⟨_, heff, hfmt⟩ := resolve1_none h1
-            exact key ⟨s, d, some r⟩ rfl rfl (.inr ⟨r, rfl, hpar, heff, hfmt⟩) h
-
-/-! ### the configuration -/
-
-structure Good (nc : Bool) (m : SMap) : Prop where
-  sound : Sound nc m
-  roots : Roots m
-  parsed : Parsed m
-  complete : Complete m
-
-theorem good_nil (nc : Bool) : Good nc [] :=
-  ⟨fun _ _ _ h => by simp [lookup] at h, fun _ _ h => by simp [lookup] at h,
-   fun _ _ h => by simp [lookup] at h,
-   fun id r h => by obtain ⟨d, hd⟩ := h.known; simp [descOf, lookup] at hd⟩
-
-theorem addNewItems_spec {c c' : Conf} {items : List (Id × Str)} (hg : Good c.noColor c.map)
-    (h : addNewItems c items = .ok c') :
-    Good c'.noColor c'.map ∧ c'.noColor = c.noColor ∧ c'.sources = c.sources ∧
-      strOf c'.map = firstStr (strOf c.map) items ∧
-      c'.cache = (if items.any (fun kv => (lookup c.map kv.1).isNone) then [] else c.cache) := by
-  unfold addNewItems at h
-  split at h
-  · rename_i hnil
-    cases h
-    refine ⟨hg, rfl, rfl, ?_, ?_⟩
-    · subst hnil
-      funext id
-      simp only [firstStr]
-      cases strOf c.map id <;> simp [dictGet]
-    · subst hnil; simp
-  · cases h1 : insertItems c.noColor c.map items with
-    | error err => simp [h1] at h
-    | ok m1 =>
-      simp only [h1] at h
-      cases h2 : resolveAll c.noColor m1 with
-      | error err => simp [h2] at h
-      | ok m2 =>
-        simp [h2] at h
-        subst h
-        obtain ⟨hs1, hr1, hp1, hstr1⟩ := insertItems_spec items c.map m1 hg.sound hg.roots hg.parsed h1
-        obtain ⟨hs2, hr2, _, hc2⟩ := resolveAll_spec hs1 hr1 h2
-        have hf := resolveAll_frame h2
-        refine ⟨⟨hs2, hr2, hf.parsed hp1, hc2⟩, rfl, rfl, ?_, rfl⟩
-        simp only
-        rw [hf.strOf, hstr1]
-
-/-! ### `get_color` -/
-
-theorem SpecColor.det {nc : Bool} {dm : Id → Option Desc} {id : Id} {f1 f2 : Str}
-    (h1 : SpecColor nc dm id f1) (h2 : SpecColor nc dm id f2) : f1 = f2 := by
-  unfold SpecColor at h1 h2
-  simp only at h1 h2
-  rcases h1 with ⟨r1, hr1, hf1⟩ | ⟨hn1, he1⟩ <;> rcases h2 with ⟨r2, hr2, hf2⟩ | ⟨hn2, he2⟩
-  · rw [hr1.det hr2] at hf1
-    rw [hf1] at hf2
-    cases hf2; rfl
-  · exact absurd ⟨r1, hr1⟩ hn2
-  · exact absurd ⟨r2, hr2⟩ hn1
-  · rw [he1, he2]
-
-theorem getColor_spec {c : Conf} (hg : Good c.noColor c.map) (id : Id) :
-    SpecColor c.noColor (descOf c.map) id (getColor c id) := by
-  unfold SpecColor getColor
-  simp only
-  have hsel : getEntry c id =
-      lookup c.map (if (descOf c.map id).isSome then id else Gen.C14.dfltId) := by
-    unfold getEntry
-    cases hl : lookup c.map id <;> simp [descOf, hl]
-  rw [hsel]
-  generalize (if (descOf c.map id).isSome then id else Gen.C14.dfltId) = id'
-  cases hl : lookup c.map id' with
-  | none =>
-    refine .inr ⟨?_, rfl⟩
-    rintro ⟨r, hr⟩
-    obtain ⟨d, hd⟩ := hr.known
-    simp [descOf, hl] at hd
-  | some e =>
-    obtain ⟨s, d, res⟩ := e
-    cases res with
-    | none =>
-      refine .inr ⟨?_, rfl⟩
-      rintro ⟨r, hr⟩
-      obtain ⟨e2, rr, hl2, hr2⟩ := hg.complete id' r hr
-      rw [hl] at hl2; cases hl2
-      cases hr2
-    | some r =>
-      obtain ⟨h1, h2⟩ := hg.sound id' _ r hl rfl
-      exact .inl ⟨r.eff, h1, h2⟩
-
-theorem getColor_congr {c c' : Conf} (hg : Good c.noColor c.map) (hg' : Good c'.noColor c'.map)
-    (hnc : c'.noColor = c.noColor) (hd : descOf c'.map = descOf c.map) (id : Id) :
-    getColor c' id = getColor c id := by
-  have h1 := getColor_spec hg id
-  have h2 := getColor_spec hg' id
-  rw [hnc, hd] at h2
-  exact h2.det h1
-
 end ColorsConf
